@@ -472,6 +472,61 @@ def foldX (env : Env J S C) (cfg : Cfg) (st : Stats) (raw : Text) (call : List S
 
 end
 
+/-! ### `ChaperoneLoop.heal` (operon_ai/healing/chaperone_loop.py)
+
+The generator is an arbitrary function of the attempt number (whatever it is shown — prompt, error context — is
+determined by the attempt number and the history, so every run of the real loop is a run of this one for some
+`gen`).  `confidence_decay` is an arbitrary rational.  Console output and the text of the error context are not
+modelled. -/
+
+def ratMin (a b : Rat) : Rat := if a ≤ b then a else b
+
+inductive HealOutcome where
+  | validFirstTry | healed | degraded
+  deriving DecidableEq, Repr
+
+/-- `RefoldingAttempt` without the texts -/
+structure HealAtt where
+  number : Nat
+  success : Bool
+  confidence : Rat
+  deriving DecidableEq, Repr
+
+/-- `HealingResult` -/
+structure HealOut (S C : Type) where
+  outcome : HealOutcome
+  folded : Option (FoldedX S C)
+  attempts : List HealAtt
+  finalConfidence : Rat
+  tagged : Bool
+
+section
+variable {J S C : Type}
+
+/-- `current_confidence = max(0.0, base_confidence - attempt_num * confidence_decay)` -/
+def healCeiling (decay : Rat) (k : Nat) : Rat := ratMax 0 (1 - (k : Rat) * decay)
+
+/-- the `for attempt_num in range(max_retries + 1)` loop from attempt `k` on, `fuel` iterations left -/
+def healFrom (env : Env J S C) (cfg : Cfg) (decay : Rat) (gen : Nat → Text) :
+    Nat → Nat → Stats → List HealAtt → W (Call J S C) (Stats × HealOut S C)
+  | 0, _, st, atts => pure (st, ⟨.degraded, none, atts, 0, true⟩)
+  | fuel + 1, k, st, atts => do
+    let r ← foldX env cfg st (gen k) []
+    if r.2.valid then
+      pure (r.1, ⟨if k = 0 then .validFirstTry else .healed,
+                  some ⟨r.2.valid, r.2.struct, r.2.raw, r.2.err, r.2.attempts,
+                        ratMin r.2.confidence (healCeiling decay k), r.2.coercions, r.2.strategyUsed⟩,
+                  atts ++ [⟨k, true, healCeiling decay k⟩],
+                  ratMin r.2.confidence (healCeiling decay k), false⟩)
+    else healFrom env cfg decay gen fuel (k + 1) r.1 (atts ++ [⟨k, false, 0⟩])
+
+/-- `ChaperoneLoop.heal` -/
+def heal (env : Env J S C) (cfg : Cfg) (st : Stats) (decay : Rat) (maxRetries : Nat) (gen : Nat → Text) :
+    W (Call J S C) (Stats × HealOut S C) :=
+  healFrom env cfg decay gen (maxRetries + 1) 0 st []
+
+end
+
 /-! ### `_coerce_types_tracked`, one level deeper
 
 The generic model above treats the coercion helper as an arbitrary function (`Env.coerce`).  This section models
